@@ -538,7 +538,14 @@ irregular_checks(vh::Rng& rng, int n, FILE* out, long& steps)
                   contiguous = false;
                 prev = p;
               }
-          if (a.is_contiguous() != contiguous)
+          bool has_empty_row = false;
+          for (int i = a.get_min_index(); i <= a.get_max_index(); ++i)
+            if (a[i].size() == 0)
+              has_empty_row = true;
+          // is_contiguous() may only say yes if the elements really are contiguous; it must say yes for
+          // contiguous arrays without empty rows (with an empty row a conservative 'no' is acceptable)
+          const bool reported = a.is_contiguous();
+          if ((reported && !contiguous) || (!reported && contiguous && !has_empty_row))
             {
               ++fails;
               std::fprintf(out, "ORACLE-FAIL irregular: is_contiguous()=%d but element addresses say %d | history: %s\n", a.is_contiguous() ? 1 : 0,
@@ -608,11 +615,11 @@ irregular_checks(vh::Rng& rng, int n, FILE* out, long& steps)
               threw = true;
               a.release_full_data_ptr();
             }
-          if (threw == contiguous || !ok)
+          if (threw == reported || !ok)
             {
               ++fails;
               std::fprintf(out, "ORACLE-FAIL irregular: get_full_data_ptr %s for a %s array | history: %s\n", threw ? "reported an error" : "returned a pointer",
-                           contiguous ? "contiguous" : "non-contiguous", trace.str().c_str());
+                           reported ? "contiguous" : "non-contiguous", trace.str().c_str());
               break;
             }
         }
